@@ -541,13 +541,17 @@ class StandIn:
         return {"desc": [desc.name, list(desc._tuples), sorted(desc.fields)], "values": snapshot(d)}
 
 
-FIELDS = [("string", "s"), ("string", "t"), ("varint", "n"), ("string[]", "l"), ("varint[]", "k"), ("dynamic", "o")]
+FIELDS = [("string", "s"), ("string", "t"), ("varint", "n"), ("string[]", "l"), ("varint[]", "k"), ("dynamic", "o"), ("string", "fmt"),
+          ("string", "fmt2")]
+# string fields holding text that looks like a format specification with attribute paths
+FMT_TEXTS = {"fmt": "{0.__secret__}", "fmt2": ">{0.__init__.__globals__}"}
 
 
 def standin_record():
     return StandIn("c09/standin", FIELDS + [("record", "p")], {
         "s": CStr("Abc Def"), "t": CStr("other"), "n": CInt(5), "l": CList([CStr("a1"), CStr("b2")]),
         "k": CList([CInt(1), CInt(2), CInt(3)]), "o": CObj._make(1), "p": CProto._make(0),
+        "fmt": CStr(FMT_TEXTS["fmt"]), "fmt2": CStr(FMT_TEXTS["fmt2"]),
     })
 
 
@@ -595,7 +599,33 @@ def real_canary_record():
         s=c["CFStr"]("Abc Def"), t=c["CFStr"]("other"), n=c["CFInt"](5),
         l=c["CFStrList"]([c["CFStr"]("a1"), c["CFStr"]("b2")]),
         k=c["CFIntList"]([c["CFInt"](1), c["CFInt"](2), c["CFInt"](3)]),
-        o=c["CFObj"]._make(1),
+        o=c["CFObj"]._make(1), fmt=c["CFStr"](FMT_TEXTS["fmt"]), fmt2=c["CFStr"](FMT_TEXTS["fmt2"]),
+    )
+
+
+MUTABLE_FIELDS = [("string[]", "tags"), ("stringlist", "sl"), ("dictlist", "hashes"), ("varint[]", "nums"), ("digest", "dg"), ("command", "cmd"),
+                  ("record", "sub"), ("record[]", "subs"), ("bytes", "by"), ("string", "s"), ("string", "fmt"), ("string", "fmt2"), ("dynamic", "dy"),
+                  ("path[]", "paths"), ("varint", "n")]
+MD5 = "d41d8cd98f00b204e9800998ecf8427e"
+SHA1 = "da39a3ee5e6b4b0d3255bfef95601890afd80709"
+
+
+def real_mutable_record():
+    """A real record with plain (non-canary) but MUTABLE values: typed lists, a stringlist, a dictlist whose dicts look like
+    digest arguments, a digest, a command, nested records holding lists.  Evaluation never modifies the record: its deep
+    observation (observe.obs) is compared before and after every evaluation."""
+    from flow.record import RecordDescriptor
+    from flow.record.fieldtypes import command
+
+    c = real_classes()
+    if "mutable_desc" not in c:
+        c["mutable_desc"] = RecordDescriptor("c09/mutable", MUTABLE_FIELDS)
+        c["inner_desc"] = RecordDescriptor("c09/inner", [("string[]", "tags"), ("dictlist", "hashes"), ("string", "s")])
+    inner = lambda i: c["inner_desc"](tags=["i%d" % i, "j"], hashes=[{"md5": MD5}], s="inner%d" % i)  # noqa: E731
+    return c["mutable_desc"](
+        tags=["a"], sl=["Xa", "yB"], hashes=[{"md5": MD5, "sha1": SHA1}, {"md5": MD5}, {"sha256": "0" * 64}], nums=[1, 2, 3],
+        dg=(MD5, None, None), cmd=command.from_posix("ls -l /tmp"), sub=inner(0), subs=[inner(1), inner(2)], by=b"ab", s="Abc Def",
+        fmt=FMT_TEXTS["fmt"], fmt2=FMT_TEXTS["fmt2"], dy=["d1", "d2"], paths=["/a/b", "/c"], n=5,
     )
 
 
@@ -641,7 +671,7 @@ def real_plain_record():
 def count_canaries(rec):
     """How many slots of a real record still hold canary-tagged values (what survived Record.__setattr__)."""
     n = 0
-    for k in ("s", "t", "n", "l", "k", "o", "w", "u", "fs", "mode", "d2", "sl", "p", "q"):
+    for k in ("s", "t", "n", "l", "k", "o", "w", "u", "fs", "mode", "d2", "sl", "p", "q", "fmt", "fmt2"):
         v = getattr(rec, k, None)
         if isinstance(v, CanaryBase):
             n += 1
